@@ -307,7 +307,7 @@ def main(argv=None):
     if bad_canaries:
         print("CHECKER-ERROR: canary obligations were not refuted: %s" % [e["name"] for e in bad_canaries])
         return 3
-    if len(real_obl) < meta.get("min_obligations", 1):
+    if len(real_obl) < meta.get("min_obligations", 1) and not engine_errors and not a.unit:
         print("CHECKER-ERROR: only %d obligations generated (expected >= %d)" % (len(real_obl), meta.get("min_obligations", 1)))
         return 3
     if undecided:
